@@ -22,6 +22,7 @@ func diag9(c spec.V4Class) bool {
 
 // CheckC10 — Modified / not-defined resolution.
 func CheckC10(r *Report) {
+	ColdStart(r)
 	if err := spec.V4Init(); err != nil {
 		r.Note("MODEL ERROR: %v", err)
 		r.NotExhaustive("model start-up checks failed; nothing decided")
